@@ -114,6 +114,25 @@ def precond (S : Sys V K) (r : V) : V :=
   | none => r
   | some P => P r
 
+/-- the block
+    ```
+    ii += 1
+    if ii < self._nreset:  r = r - q*alpha;  energy = energy.at_with_grad(energy.position - alpha*d, r)
+    else:                  energy = energy.at(energy.position - alpha*d);  r = energy.gradient;  ii = 0
+    ```
+    `ii1` is the already incremented `ii`; returns the new `energy`, `r`, `ii` -/
+def advance (S : Sys V K) (nreset : Int) (E : QE V K) (r d q : V) (alpha : K) (ii1 : Int) : QE V K × V × Int :=
+  if ii1 < nreset then
+    (QE.atWithGrad S (E.pos - alpha • d) (r - alpha • q), r - alpha • q, ii1)
+  else
+    (QE.at S (E.pos - alpha • d), (QE.at S (E.pos - alpha • d)).grad, 0)
+
+/-- bookkeeping record of one pass (not part of the Python code) -/
+def mkIter (S : Sys V K) (curv alpha gamma : K) (reset : Bool) (E' : QE V K) (status : Option Status) (cc : Int) :
+    Iter K :=
+  { curv := curv, alpha := alpha, reset := reset, gamma := gamma, value := E'.value,
+    gnsq := S.ip E'.grad E'.grad, status := status, ccount := cc }
+
 /-- the `while True:` loop; arguments are the loop-carried variables `energy, r, d, previous_gamma, ii` and the
     controller state, plus the (ghost) lists of energies seen so far -/
 def loop (S : Sys V K) (c : Ctrl K τ) (nreset : Int) :
@@ -121,46 +140,35 @@ def loop (S : Sys V K) (c : Ctrl K τ) (nreset : Int) :
   | 0, E, _, _, _, _, s, ch, md, its =>
     { energy := E, status := .continue_, reason := .fuel, ctrl := some s, checked := ch, made := md, iters := its }
   | fuel + 1, E, r, d, pg, ii, s, ch, md, its =>
-    let q := S.A d
-    let curv := S.ip d q
-    if curv = 0 then
+    if S.ip d (S.A d) = 0 then                                   -- curv == 0.
       { energy := E, status := .error, reason := .curvZero, ctrl := some s, checked := ch, made := md, iters := its }
-    else
-    let alpha := pg / curv
-    if alpha < 0 then
+    else if pg / S.ip d (S.A d) < 0 then                         -- alpha < 0
       { energy := E, status := .error, reason := .alphaNeg, ctrl := some s, checked := ch, made := md, iters := its }
     else
-    let ii1 := ii + 1
-    let x' := E.pos - alpha • d
-    let reset := ¬ (ii1 < nreset)
-    let E' : QE V K := if ii1 < nreset then QE.atWithGrad S x' (r - alpha • q) else QE.at S x'
-    let r' : V := if ii1 < nreset then r - alpha • q else E'.grad
-    let ii' : Int := if ii1 < nreset then ii1 else 0
-    let s' := precond S r'
-    let gamma := S.ip r' s'
-    let md' := md ++ [E']
-    let it : Iter K := { curv := curv, alpha := alpha, reset := reset, gamma := gamma, value := E'.value,
-                         gnsq := S.ip E'.grad E'.grad, status := none, ccount := s.ccount }
-    if gamma < 0 then
-      { energy := E', status := .error, reason := .gammaNeg, ctrl := some s, checked := ch, made := md',
-        iters := its ++ [it] }
-    else if gamma = 0 then
-      { energy := E', status := .converged, reason := .gammaZero, ctrl := some s, checked := ch, made := md',
-        iters := its ++ [it] }
+    match advance S nreset E r d (S.A d) (pg / S.ip d (S.A d)) (ii + 1) with
+    | (E', r', ii') =>
+    let it : Option Status → Int → Iter K :=
+      mkIter S (S.ip d (S.A d)) (pg / S.ip d (S.A d)) (S.ip r' (precond S r')) (decide ¬ (ii + 1 < nreset)) E'
+    if S.ip r' (precond S r') < 0 then                           -- gamma < 0
+      { energy := E', status := .error, reason := .gammaNeg, ctrl := some s, checked := ch, made := md ++ [E'],
+        iters := its ++ [it none s.ccount] }
+    else if S.ip r' (precond S r') = 0 then                      -- gamma == 0
+      { energy := E', status := .converged, reason := .gammaZero, ctrl := some s, checked := ch, made := md ++ [E'],
+        iters := its ++ [it none s.ccount] }
     else
     match c.check s (obs S E') with
     | none =>
-      { energy := E', status := .error, reason := .raised, ctrl := some s, checked := ch ++ [E'], made := md',
-        iters := its ++ [it] }
+      { energy := E', status := .error, reason := .raised, ctrl := some s, checked := ch ++ [E'], made := md ++ [E'],
+        iters := its ++ [it none s.ccount] }
     | some (s1, status) =>
-      let it1 := { it with status := some status, ccount := s1.ccount }
       if status ≠ .continue_ then
-        { energy := E', status := status, reason := .ctrlCheck, ctrl := some s1, checked := ch ++ [E'], made := md',
-          iters := its ++ [it1] }
+        { energy := E', status := status, reason := .ctrlCheck, ctrl := some s1, checked := ch ++ [E'],
+          made := md ++ [E'], iters := its ++ [it (some status) s1.ccount] }
       else
-      let beta := gamma / pg
-      let d' := (if 0 < beta then beta else 0) • d + s'     -- `d * max(0, gamma/previous_gamma) + s`
-      loop S c nreset fuel E' r' d' gamma ii' s1 (ch ++ [E']) md' (its ++ [it1])
+      -- `d = d * max(0, gamma/previous_gamma) + s`
+      loop S c nreset fuel E' r'
+        ((if 0 < S.ip r' (precond S r') / pg then S.ip r' (precond S r') / pg else 0) • d + precond S r')
+        (S.ip r' (precond S r')) ii' s1 (ch ++ [E']) (md ++ [E']) (its ++ [it (some status) s1.ccount])
 
 /-- `ConjugateGradient(controller, nreset)(energy, preconditioner)` -/
 def cg (S : Sys V K) (c : Ctrl K τ) (nreset : Int) (fuel : Nat) (E : QE V K) : Out V K τ :=
